@@ -96,25 +96,33 @@ impl super::DebugSession {
         addr: debugger::address::Address,
         f: impl FnOnce(&mut super::breakpoint::BreakpointRecord) -> T,
     ) -> Option<T> {
+        // The stop carries a relocated address; a record made before the process started holds
+        // a file-relative one. The breakpoint number is the same in both lives.
+        let number = self.debugger.as_ref().and_then(|dbg| {
+            dbg.breakpoints_snapshot()
+                .iter()
+                .find(|view| view.addr == addr)
+                .map(|view| view.number)
+        });
+        let matches = |record: &super::breakpoint::BreakpointRecord| {
+            number.is_some_and(|n| record.numbers.contains(&n)) || record.addresses.contains(&addr)
+        };
         for records in self.breakpoints_by_source.values_mut() {
-            if let Some(record) = records
-                .iter_mut()
-                .find(|record| record.addresses.contains(&addr))
-            {
+            if let Some(record) = records.iter_mut().find(|record| matches(record)) {
                 return Some(f(record));
             }
         }
         if let Some(record) = self
             .function_breakpoints
             .iter_mut()
-            .find(|record| record.addresses.contains(&addr))
+            .find(|record| matches(record))
         {
             return Some(f(record));
         }
         if let Some(record) = self
             .instruction_breakpoints
             .iter_mut()
-            .find(|record| record.addresses.contains(&addr))
+            .find(|record| matches(record))
         {
             return Some(f(record));
         }
